@@ -1344,9 +1344,9 @@ func (c *Ctx) ruleSyncSingles(rule string, fn *ssa.Function, fos []*fanout, E *s
 // ---- selection of rules by name (C12 N1/N3/N4, C13 G3) ---------------------------
 
 type selection struct {
-	cell    *ssa.Alloc      // the local slice of selected rules
-	lookups []*ssa.Lookup   // comma-ok lookups feeding it
-	keySrc  []string        // description of the key source per lookup
+	cell    *ssa.Alloc    // the local slice of selected rules
+	lookups []*ssa.Lookup // comma-ok lookups feeding it
+	keySrc  []string      // description of the key source per lookup
 	loops   []*Loop
 }
 
